@@ -107,7 +107,8 @@ HARNESSES += [
 ]
 HARNESSES += [
     H("c13_cast_relation_q", ["C13"], weight=60, stubs=1),
-    H("c13_cast_relation_records", ["C13"], weight=200, stubs=1, timeout=2400, mem_gb=24),
+    H("c13_cast_relation_record_pairs", ["C13"], weight=100, stubs=2, timeout=1800),
+    H("c13_cast_relation_records", ["X13"], weight=200, stubs=1, timeout=3600, mem_gb=24),
     H("c13_cast_relation_t", ["C13"], tier="thorough", weight=300, timeout=7200, mem_gb=30, stubs=1),
 ]
 HARNESSES += [
